@@ -26,7 +26,10 @@ ASSUMPTIONS = [
     "ids issued by a back-end contain only characters that need no URL escaping and are not '.', '..' (mem: decimal, file: timestamp-counter)",
     "canonical mailbox names are fixed points of the naming function (C04) where a theorem says [mfa mb = Some mb]",
 ]
-NOT_PROVED = []
+NOT_PROVED = [
+    "client_convenience_effect_stmt (Proofs/RestClient.v): MessageHeader.GetMessage/GetSource/Delete and Message.GetSource/Delete "
+    "(two round trips through an id taken from the first answer) have the effect their names say — covered by the correspondence run only",
+]
 KNOWN_MUST_REPRODUCE = True
 
 
